@@ -347,7 +347,8 @@ class TFLiteSemantic:
         extra = []
         tensors = [tens for tens in op.get_ifm_ifm2_weights_ofm() if tens]
         for tens in tensors:
-            if tens.quantization is None:
+            # a quantization table that lacks the scale or the zero point is as unusable as no table at all
+            if tens.quantization is None or not tens.quantization.is_valid():
                 valid = False
                 extra.append(tens.name)
         extra = ", ".join(extra)
